@@ -374,6 +374,43 @@ def _api_defaults():
     return _API_DEFAULTS
 
 
+class CompView:
+    """A one-generator comprehension `[elt for target in iter if c1 if c2 ...]` seen independently of the way the source spells it:
+    as a comprehension node (`closed_form` clause) or as the accumulator loop `acc = []; for target in iter: [y = e;]* [if c:]* acc.append(elt)`
+    (`accumulator_form` clause).  A contract that supplies the closed form of such a list states it once, against this view:
+      source()  -> the value of the iterable expression (evaluated in the current environment),
+      at(item)  -> (list of condition formulas, element Val) for the target bound to `item` (local bindings evaluated in order),
+      kind      -> 'ListComp' | 'GeneratorExp' | 'SetComp' | 'Accumulator' (the accumulator builds a list)."""
+
+    def __init__(self, interp, env, kind, iter_node, target, steps, elt_node, source=None):
+        self.interp, self.env, self.kind = interp, env, kind
+        self.iter_node, self.target, self.steps, self.elt_node = iter_node, target, steps, elt_node
+        self._source = source
+
+    @classmethod
+    def of_comprehension(cls, interp, env, node):
+        if len(node.generators) != 1:
+            raise Unsupported('nested comprehension as a one-generator view')
+        g = node.generators[0]
+        return cls(interp, env, type(node).__name__, g.iter, g.target, [('if', c) for c in g.ifs], node.elt)
+
+    def source(self):
+        if self._source is None:
+            self._source = self.interp.eval(self.iter_node, self.env)
+        return self._source
+
+    def at(self, item):
+        inner = flat_env(self.env)
+        self.interp.assign(self.target, item, inner)
+        conds = []
+        for s_ in self.steps:
+            if s_[0] == 'let':
+                self.interp.assign(s_[1], self.interp.eval(s_[2], inner), inner)
+            else:
+                conds.append(truthy(self.interp.eval(s_[1], inner)))
+        return conds, self.interp.eval(self.elt_node, inner)
+
+
 class LoopSpec:
     """invariant(E[, k]) -> list of (name, formula); decreases(E) -> Int term or None.
     For `for` loops over an IterV the invariant takes the ghost index k (elements 0..k-1 processed)."""
@@ -589,6 +626,9 @@ class Interp:
                     continue
                 self.loop_ordinals[id(node)] = n
                 n += 1
+        accs = sorted((x for x in ast.walk(extracted.node) if isinstance(x, ast.For) and self.loop_ordinals.get(id(x)) == -1),
+                      key=lambda x: (x.lineno, x.col_offset))
+        self.accumulator_ordinals = {id(x): 'Accumulator#%d' % i for i, x in enumerate(accs)}      # source order
         for node in sorted((x for x in ast.walk(extracted.node)
                             if isinstance(x, (ast.ListComp, ast.GeneratorExp, ast.SetComp, ast.DictComp))),
                            key=lambda x: (x.lineno, x.col_offset)):
@@ -918,6 +958,8 @@ class Interp:
         p = self.path
         n = self.loop_ordinals[id(st)]
         it = _chars(self.eval(st.iter, env))
+        if n == -1 and self.accumulator_form(st, it, env):
+            return
         if isinstance(it, (TupleV, ListV)):
             items = list(it.items)       # A-SEQ: a body that mutates the iterated list is rejected
             broke = False
@@ -950,6 +992,7 @@ class Interp:
                 return
             raise Unsupported('for loop #%d without invariant' % n)
         p.assume(it.length >= 0)
+        p.ghost['iter#%d' % n] = it      # the iterable of the contract loop, visible to its clauses (e.g. to read off the iteration order)
         if getattr(spec, 'on_entry', None):
             spec.on_entry(p, env)
         for nm, f in spec.inv('entry', EnvView(env, p), IntVal(0)):
@@ -1000,25 +1043,48 @@ class Interp:
     def values_equal(self, a, b):
         return values_equal(a, b)
 
+    def accumulator_parts(self, st, env):
+        """(steps, append-call, accumulator name) if `st` is an accumulator loop whose accumulator is a local list that is empty
+        before the loop and is used in the loop by `.append` only (then the loop IS the list comprehension), else None"""
+        shape = accumulator_shape(st)
+        if shape is None:
+            return None
+        steps, call = shape
+        name = call.func.value.id
+        acc = env.get(name)
+        if not (isinstance(acc, ListV) and not acc.items and type(acc) is ListV):
+            return None
+        for node in ast.walk(st):            # the accumulator must not be used in the body other than by .append
+            if isinstance(node, ast.Name) and node.id == name and node is not call.func.value:
+                return None
+        letnames = {n.id for s_ in steps if s_[0] == 'let' for n in ast.walk(s_[1]) if isinstance(n, ast.Name)}
+        if name in letnames:
+            return None
+        return steps, call, name
+
+    def accumulator_form(self, st, source, env):
+        """`accumulator_form` clause, the counterpart of `closed_form` for a comprehension spelled as an accumulator loop: the
+        contract gives the list the loop builds (keyed 'Accumulator#k', k-th accumulator-shaped loop in source order) from the
+        form-independent view of the comprehension (CompView); the accumulator variable is bound to it."""
+        hook = self.loops.get('accumulator_form', {}).get(self.accumulator_ordinals.get(id(st)))
+        if hook is None:
+            return False
+        shape = self.accumulator_parts(st, env)
+        if shape is None:
+            return False
+        steps, call, name = shape
+        env[name] = hook(self, env, CompView(self, env, 'Accumulator', st.iter, st.target, steps, call.args[0], source=source))
+        return True
+
     def accumulator_loop(self, st, it, env):
         """A for-loop over a contract iterable whose body is `[x = e;] [if c:] acc.append(e)` with `acc` a local list that is
         empty before the loop is the list comprehension [e for x in it if c] (same elements, same order; the local bindings
         are evaluated per element, in order): handled by the comprehension closed form, so that this harmless reformulation
         needs no new invariant."""
-        shape = accumulator_shape(st)
+        shape = self.accumulator_parts(st, env)
         if shape is None:
             return False
-        steps, call = shape
-        name = call.func.value.id
-        acc = env.get(name)
-        if not (isinstance(acc, ListV) and not acc.items and type(acc) is ListV):
-            return False
-        for node in ast.walk(st):            # the accumulator must not be used in the body other than by .append
-            if isinstance(node, ast.Name) and node.id == name and node is not call.func.value:
-                return False
-        letnames = {n.id for s_ in steps if s_[0] == 'let' for n in ast.walk(s_[1]) if isinstance(n, ast.Name)}
-        if name in letnames:
-            return False
+        steps, call, name = shape
         base_env = flat_env(env)
 
         def run(k, want):
@@ -1239,6 +1305,13 @@ class Interp:
                     if not isinstance(sv, (TupleV, ListV)):
                         if self.loops.get('star_opaque') and isinstance(sv, ObjV) and len(node.args) == 1:
                             args.append(sv)        # f(*rows) with an opaque row collection: the callee's contract takes the collection
+                            continue
+                        if self.loops.get('star_opaque') and isinstance(sv, (IterV, SeqV)) and len(node.args) == 1:
+                            # f(*rows) with a contract sequence of symbolic length (a closed-form comprehension, an accumulator
+                            # loop): the callee's contract gets the sequence, marked as starred (`.starred`), never as one argument
+                            o = ObjV('starred-sequence', {}, name='*%s' % sv.name)
+                            o.starred = sv
+                            args.append(o)
                             continue
                         raise Unsupported('*args of non-concrete sequence')
                     args.extend(sv.items)
